@@ -179,7 +179,7 @@ def model_series(theta, N, seed, D):  # noqa: N803
     return np.stack(cols, axis=1)
 
 
-def scripted_model(theta, N, seed):  # noqa: N803
+def _model(theta, N, seed, D):  # noqa: N803
     """Series whose entries encode (vector, N, seed): the stored series reveal which run produced them."""
     rec = REC
     seed = int(seed)
@@ -188,7 +188,23 @@ def scripted_model(theta, N, seed):  # noqa: N803
             rec.log({"e": "fault", "at": "model"})
             raise Injected("model")
         rec.log({"e": "model", "pid": rec.pid(theta), "N": int(N), "sp": rec.seedpos.get(seed, -1)})
-    return model_series(theta, N, seed, MODEL_D[0])
+    return model_series(theta, N, seed, D)
+
+
+# one importable function per number of columns (joblib workers and restore_from_checkpoint need a plain named function)
+def scripted_model(theta, N, seed):  # noqa: N803
+    return _model(theta, N, seed, 1)
+
+
+def scripted_model_2(theta, N, seed):  # noqa: N803
+    return _model(theta, N, seed, 2)
+
+
+def scripted_model_3(theta, N, seed):  # noqa: N803
+    return _model(theta, N, seed, 3)
+
+
+MODELS = {1: scripted_model, 2: scripted_model_2, 3: scripted_model_3}
 
 
 def decode_series(series):
@@ -408,7 +424,7 @@ def disk_event(rec: Recorder, folder: str) -> dict:
     try:
         try:
             with quiet():
-                r = Calibrator.restore_from_checkpoint(folder, model=scripted_model)
+                r = Calibrator.restore_from_checkpoint(folder, model=MODELS[MODEL_D[0]])
         except Exception as e:  # noqa: BLE001
             return {"e": "disk", "bi": -1, "ns": -1, "rows": [], "rng": -1, "names": [], "namesok": False, "error": repr(e)[:200]}
         st = json.dumps(r.random_generator.bit_generator.state, sort_keys=True, default=int)
@@ -486,7 +502,7 @@ def run_script(script: dict) -> dict:
             real = np.zeros((cfg.get("Nreal", cfg["N"]), MODEL_D[0]))
             sched = build_scheduler(cfg, samplers, script.get("agent"))
             kw = {"samplers": samplers} if sched is None else {"scheduler": sched}
-            cal = Calibrator(loss_function=loss, real_data=real, model=scripted_model, parameters_bounds=SPACE_BOUNDS,
+            cal = Calibrator(loss_function=loss, real_data=real, model=MODELS[MODEL_D[0]], parameters_bounds=SPACE_BOUNDS,
                              parameters_precision=SPACE_PREC, ensemble_size=cfg["E"],
                              sim_length=None if cfg.get("Nreal", cfg["N"]) == cfg["N"] else cfg["N"],
                              convergence_precision=cfg["prec"] if cfg["convon"] else None, verbose=cfg["verbose"],
@@ -518,7 +534,7 @@ def run_script(script: dict) -> dict:
                     rec.log({"e": "mkckpt"})
                     rec.log(disk_event(rec, folder))
                 elif kind == "restore":
-                    cal = Calibrator.restore_from_checkpoint(folder, model=scripted_model)
+                    cal = Calibrator.restore_from_checkpoint(folder, model=MODELS[MODEL_D[0]])
                     rec.cal = cal
                     rec.log({"e": "restore"})
                     rec.log(idle_event(rec, cal, base_threads, False))
